@@ -8,8 +8,8 @@ replay = c02.replay
 
 def shapes_for(tier):
     if tier == 'quick':
-        return [('B11a', 'cudd'), ('S11', 'cudd'), ('S11h2', 'cudd'), ('S11g2', 'cudd'), ('B02', 'cudd'), ('S11', 'autoref')]
-    return [('B11a', 'cudd'), ('S11h2', 'cudd'), ('S11g2', 'cudd'), ('B11b', 'cudd'), ('B11c21', 'cudd'), ('B11c12', 'cudd'), ('S11', 'cudd'),
+        return [('B11a', 'cudd'), ('S11', 'cudd'), ('B02', 'cudd'), ('S11', 'autoref')]
+    return [('B11a', 'cudd'), ('S11h2', 'cudd'), ('S11g2', 'cudd'), ('B11b', 'cudd'), ('S11', 'cudd'),
             ('B02', 'cudd'), ('S11', 'autoref')]
 
 
